@@ -158,11 +158,15 @@ func (c *compressor) writeBlock() {
 	c.next = 0
 
 	b := c.buf.Bytes()
-	i := bytes.Index(b, bgzfExtraPrefix)
-	if i < 0 {
+	// The BC subfield is the first subfield of the extra field, which
+	// follows the 10 byte gzip header and the 2 byte extra length. A
+	// search of the whole member can find the same bytes in MTIME.
+	const extraStart = 12
+	if len(b) < extraStart || bytes.Index(b[extraStart:], bgzfExtraPrefix) != 0 {
 		c.err = gzip.ErrHeader
 		return
 	}
+	i := extraStart
 	size := len(b) - 1
 	if size >= MaxBlockSize {
 		c.err = ErrBlockOverflow
